@@ -26,7 +26,10 @@ PROBES = ["multi_component", "cycle", "self_link", "containment_only_relation", 
 
 
 def gen(streams, tier, i):
-    scn = c11.gen(streams, tier, i + 7919)
+    cfg = streams.get("config2")
+    scn = c11.gen(streams, tier, i + 7919, over={"max_seg": cfg.choice([3, 5, 8]), "min_seg": 2,
+                                                  "max_link": cfg.choice([3, 6, 10]), "max_edge": cfg.choice([3, 6, 10]),
+                                                  "etypes": ["dovetail", "dovetail", "cont", "internal", "any"]})
     scn["cfg"].pop("cell", None)
     r = streams.get("history")
     if r.random() < 0.4:
